@@ -32,6 +32,13 @@ fn main() {
             let out = arg(&args, "--out").expect("--out");
             ic::cmd_replay(file, &prop, &out);
         }
+        "ic-walk" => {
+            let seed: u64 = arg(&args, "--seed").and_then(|s| s.parse().ok()).unwrap_or(1);
+            let runs: usize = arg(&args, "--runs").and_then(|s| s.parse().ok()).unwrap_or(12);
+            let len: usize = arg(&args, "--len").and_then(|s| s.parse().ok()).unwrap_or(3000);
+            let out = arg(&args, "--out").expect("--out");
+            ic::cmd_walk(seed, runs, len, &out);
+        }
         "replay" => {
             let file = args.get(2).expect("edge file");
             let prop = arg(&args, "--prop").expect("--prop");
